@@ -41,11 +41,22 @@ Definition seq_apply (c : cfg) (o : op) (r : list op) (held : list (N * Z)) : cf
       else c                                     (* no grant: the thread waits *)
   end.
 
-Ltac solo_step :=
-  unfold solo_run; cbn [repeat fold_left];
-  repeat (unfold step at 1; cbn [c_crash c_thr nth_error]; unfold step_thread at 1;
-          cbn [t_pc t_ops t_held mk move set_thr c_thr c_tab c_bud c_next c_log c_crash upd firstn skipn app
-               busy existsb holds_bucket cs_key negb orb is_some]).
+Lemma step_solo nb c th : c_crash c = false -> c_thr c = [th] -> step nb c 0 = step_thread nb c 0 th.
+Proof. intros Hc Ht. unfold step. rewrite Hc, Ht. reflexivity. Qed.
+
+Ltac simp_cfg :=
+  cbn [t_pc t_ops t_held mk move set_thr c_thr c_tab c_bud c_next c_log c_crash upd firstn skipn app
+       busy existsb holds_bucket cs_key negb orb is_some].
+(* execute the innermost pending step of the only thread *)
+Ltac adv Hc Ht :=
+  match goal with
+  | |- context [step ?nb ?x 0%nat] =>
+      lazymatch x with step _ _ _ => fail | _ => idtac end;
+      erewrite (step_solo nb x);
+      [ | cbn [c_crash]; first [exact Hc | reflexivity]
+        | cbn [c_thr]; first [exact Ht | reflexivity] ]
+  end;
+  unfold step_thread, move, set_thr; rewrite ?Ht; simp_cfg.
 
 Theorem seq_refinement nb c o r held :
   c_crash c = false -> c_thr c = [mk PIdle (o :: r) held] ->
@@ -53,28 +64,26 @@ Theorem seq_refinement nb c o r held :
 Proof.
   intros Hc Ht. destruct o as [k|k p|k n|k]; unfold seq_apply.
   - exists 3%nat. split; [lia|]. unfold solo_run. cbn [repeat fold_left].
-    unfold step at 1. rewrite Hc, Ht. solo_step. rewrite Hc. reflexivity.
+    adv Hc Ht. adv Hc Ht. adv Hc Ht. rewrite Hc. reflexivity.
   - unfold seq_create. destruct (c_tab c k) as [e|] eqn:Ek.
     + exists 3%nat. split; [lia|]. unfold solo_run. cbn [repeat fold_left].
-      unfold step at 1. rewrite Hc, Ht. solo_step. rewrite Ek. solo_step. rewrite Hc. reflexivity.
+      adv Hc Ht. adv Hc Ht. rewrite Ek. simp_cfg. adv Hc Ht. rewrite Hc. reflexivity.
     + exists 5%nat. split; [lia|]. unfold solo_run. cbn [repeat fold_left].
-      unfold step at 1. rewrite Hc, Ht. solo_step. rewrite Ek. solo_step. rewrite Ek. solo_step.
+      adv Hc Ht. adv Hc Ht. rewrite Ek. simp_cfg. adv Hc Ht. adv Hc Ht. rewrite Ek. simp_cfg. adv Hc Ht.
       rewrite Hc. reflexivity.
   - unfold seq_addto. destruct (c_tab c k) as [e|] eqn:Ek.
     + exists 4%nat. split; [lia|]. unfold solo_run. cbn [repeat fold_left].
-      unfold step at 1. rewrite Hc, Ht. solo_step. rewrite Ek. solo_step. rewrite Ek, Z.eqb_refl.
-      destruct ((e_lmt e + n =? e_cnt e) && (e_ret e - 1 =? 0)); solo_step; rewrite Hc; reflexivity.
+      adv Hc Ht. adv Hc Ht. rewrite Ek. simp_cfg. adv Hc Ht. rewrite Ek, Z.eqb_refl.
+      destruct ((e_lmt e + n =? e_cnt e) && (e_ret e - 1 =? 0)); simp_cfg; adv Hc Ht; rewrite Hc; reflexivity.
     + exists 2%nat. split; [lia|]. unfold solo_run. cbn [repeat fold_left].
-      unfold step at 1. rewrite Hc, Ht. solo_step. rewrite Ek. unfold crash. cbn [c_tab c_bud c_next c_log c_thr].
-      reflexivity.
+      adv Hc Ht. adv Hc Ht. rewrite Ek. unfold crash. simp_cfg. reflexivity.
   - destruct (0 <? c_bud c k) eqn:Eg.
     2:{ exists 0%nat. split; [lia|]. reflexivity. }
     unfold seq_use. destruct (c_tab c k) as [e|] eqn:Ek.
     + exists 6%nat. split; [lia|]. unfold solo_run. cbn [repeat fold_left].
-      unfold step at 1. rewrite Hc, Ht. cbn [nth_error]. unfold step_thread at 1. cbn [t_pc t_ops t_held mk]. rewrite Eg.
-      solo_step. rewrite Ek. solo_step. rewrite Ek. solo_step. rewrite Ek.
-      destruct ((e_lmt e =? e_cnt e + 1) && (e_ret e =? 0)); solo_step; rewrite Hc; reflexivity.
+      adv Hc Ht. rewrite Eg. simp_cfg. adv Hc Ht. rewrite Ek. simp_cfg. adv Hc Ht. adv Hc Ht. rewrite Ek. simp_cfg.
+      adv Hc Ht. rewrite Ek.
+      destruct ((e_lmt e =? e_cnt e + 1) && (e_ret e =? 0)); simp_cfg; adv Hc Ht; rewrite Hc; reflexivity.
     + exists 3%nat. split; [lia|]. unfold solo_run. cbn [repeat fold_left].
-      unfold step at 1. rewrite Hc, Ht. cbn [nth_error]. unfold step_thread at 1. cbn [t_pc t_ops t_held mk]. rewrite Eg.
-      solo_step. rewrite Ek. solo_step. rewrite Hc. reflexivity.
+      adv Hc Ht. rewrite Eg. simp_cfg. adv Hc Ht. rewrite Ek. simp_cfg. adv Hc Ht. rewrite Hc. reflexivity.
 Qed.
